@@ -387,6 +387,51 @@ theorem placeOrder_takes {cfg : Cfg} {s s' : State} {app user pair : Nat} {typ :
   · show s1.bal _ (sideIn p buy) = _
     rw [b1]; simp [newOrder]
 
+/-- a successful placement passed the stateless validations -/
+theorem placeOrder_ext {cfg : Cfg} {s s' : State} {app user pair : Nat} {typ : OType} {buy : Bool}
+    {msgOffer msgPrice price amount : Nat} {lifespan : Int} {ext : Bool}
+    (h : placeOrder cfg s app user pair typ buy msgOffer msgPrice price amount lifespan ext = some s') : ext = true := by
+  unfold placeOrder at h
+  split at h; · cases h
+  split at h; · cases h
+  split at h; · cases h
+  split at h; · cases h
+  split at h; · cases h
+  simp only [] at h
+  split at h; · cases h
+  split at h; · cases h
+  split at h
+  · cases h
+  · rename_i he; simpa using he
+
+/-- the delivered message: the order's price is the one the model computes from the pair's last price and the tick grid, its
+offer denom is the message's offer denom (= the pair's quote / base coin), and exactly offer + fee reserve is taken -/
+theorem placeOrderMsg_takes {cfg : Cfg} {s s' : State} {app user pair : Nat} {typ : OType} {buy : Bool} {od dd : Denom}
+    {msgOffer msgPrice amount : Nat} {lifespan : Int}
+    (h : step cfg s (.order app user pair typ buy od dd msgOffer msgPrice amount lifespan) = some s') :
+    ∃ p ac o price, s.pair? app pair = some p ∧ cfg.app? app = some ac ∧ orderPrice ac p typ buy msgPrice = some price ∧
+      s'.orders = s.orders ++ [o] ∧ o.app = app ∧ o.pair = pair ∧ o.owner = user ∧ o.od = sideIn p buy ∧ o.od = od ∧
+      o.offer = offerAmt buy price amount ∧ o.remaining = o.offer ∧ o.status = .notExecuted ∧ o.batch = p.curBatch ∧
+      o.taken = o.offer + feeOf ac.feeRate o.offer ∧
+      s.bal (.user user) o.od = s'.bal (.user user) o.od + o.taken ∧
+      s'.bal (.pairEscrow app pair) o.od = s.bal (.pairEscrow app pair) o.od + o.taken := by
+  simp only [step] at h
+  unfold placeOrderMsg at h
+  split at h; · cases h
+  rename_i ac hac
+  split at h; · cases h
+  rename_i p hp
+  split at h; · cases h
+  rename_i price hpr
+  have hext := placeOrder_ext h
+  obtain ⟨p', ac', o, hp', hac', r⟩ := placeOrder_takes h
+  rw [hp] at hp'; cases hp'
+  rw [hac] at hac'; cases hac'
+  obtain ⟨h1, h2, h3, h4, h5, rest⟩ := r
+  have hod : od = sideIn p buy := by
+    exact (of_decide_eq_true hext).1
+  exact ⟨p, ac, o, price, hp, hac, hpr, h1, h2, h3, h4, h5, h5.trans hod.symm, rest⟩
+
 /-! ### cancelling market-making orders reaches every indexed order (repaired lookup) -/
 
 theorem cancelMMStep_done {cfg : Cfg} (hsw : cfg.swapLookup = false) {app : Nat} {p : Pair} {s s' : State} {id : Nat}
@@ -964,9 +1009,10 @@ theorem supply_frame {cfg : Cfg} {s s' : State} {op : Op} (a pl : Nat) (h : step
       rw [← this]
       refine (supply_of_pools (s := s1'.modPool a' p fun q => { q with lastWdr := _ }) rfl a pl).trans ?_
       apply supply_modPool_same <;> intros <;> rfl
-  | order a' u p t b mo mp pr am l e =>
+  | order a' u p t b od dd mo mp am l =>
     apply supply_of_pools
     simp only [step] at h
+    obtain ⟨_, _, h⟩ := placeOrderMsg_core h
     unfold placeOrder at h
     split at h; · cases h
     split at h; · cases h
@@ -983,9 +1029,10 @@ theorem supply_frame {cfg : Cfg} {s s' : State} {op : Op} (a pl : Nat) (h : step
     rename_i s1 h1
     cases h
     exact (State.send_fields h1).2.1
-  | mmOrder a' u p bs ss l e =>
+  | mmOrder a' u p xs ns sa xb nb ba l =>
     apply supply_of_pools
     simp only [step] at h
+    obtain ⟨_, _, h⟩ := mmOrderMsg_core h
     unfold mmOrder at h
     split at h; · cases h
     split at h; · cases h
@@ -1070,5 +1117,16 @@ theorem supply_frame {cfg : Cfg} {s s' : State} {op : Op} (a pl : Nat) (h : step
     simp only [touchesSupply] at hn
     exact supply_endBlock_other a pl hn h
   | beginBlock a' => simp only [step, Option.some.injEq] at h; subst h; rfl
+  | migrate =>
+    simp only [step] at h
+    unfold migrate at h
+    split at h
+    · cases h
+      unfold supply State.pool?
+      show (Option.map _ (findBy (isPool a pl) (s.pools.map _))).getD 0 = _
+      rw [findBy_map_ps]
+      · intro x; split <;> rfl
+      · intro x; split <;> rfl
+    · cases h
 
 end Comdex.LiqLedger
